@@ -16,15 +16,17 @@ from . import lib_deps as L
 from . import c13
 from .common import parallel_map
 
-RULE = ("cases = (declared graph as in C13 with extra tags, target product, recursive, check, force); every product "
-        "of a graph is a target, flag combinations are sampled so that each graph contributes about 20 removals; plus an "
+RULE = ("cases = (declared graph as in C13 with extra tags, target product, recursive, check, force, products set up in "
+        "the environment of the command: none in three quarters of the cases, else one or two, mostly from the target's closure; "
+        "database writable or, in 8 % of the cases, not); every product "
+        "of a graph is a target, flag combinations are sampled so that each graph contributes about 18 removals; plus an "
         "exhaustive family (4 products, every subset of 2 candidate lines per table: 256 graphs x every target x flags; "
         "all in the thorough tier, 6 graphs otherwise); a "
         "case is non-trivial when the target has a dependency or a user; distinct = distinct (graph, case) digests")
 TRUSTED = c13.TRUSTED + ["the abstract effect of Eups.undeclare (declaration and every tag on that version disappear) is C06's "
                          "subject; here it is observed on the files, not modelled in detail"]
 ASSUMPTIONS = c13.ASSUMPTIONS + ["every declared product has its own installation directory inside the stack, holding its table file",
-                                 "nothing is set up in the environment of the command"]
+                                 "a set-up product is set up from this stack in a declared version (SETUP_<NAME>, <NAME>_DIR as setup leaves them)"]
 
 
 def gen_graph(rng, wide=False):
@@ -44,23 +46,47 @@ def gen_graph(rng, wide=False):
     return g
 
 
-def gen_cases(rng, g, per_graph=20):
-    allc = [[p["name"], p["version"], r, c, f] for p in g["products"] for r in (False, True) for c in (False, True) for f in (False, True)]
+def gen_cases(rng, g, per_graph=18, setups=None):
+    """[name, version, recursive, check, force, set-up products, read-only database]; a quarter of the cases run with
+    one or two declared products set up in the environment of the command (preferably inside the dependency closure
+    of the target), 8 % with a database the user may not write; `setups` = explicit list of (set-up products, read-only)."""
+    allc = [[p["name"], p["version"], r, c, f, [], False] for p in g["products"] for r in (False, True) for c in (False, True) for f in (False, True)]
+    if setups is not None:
+        return sorted([c[:5] + [su[0], su[1]] for c in allc for su in setups], key=repr)
     rng.shuffle(allc)
-    return sorted(allc[:per_graph])
+    out = allc[:per_graph]
+    R = c13.Resolved(g)
+    plain = [p for p in g["products"] if p["name"].isalnum()]
+    for c in out:
+        if plain and rng.random() < 0.25:
+            listed, _ = R.closure((c[0], c[1], True), ignore_j=True)
+            near = [[t[0], t[1]] for t in listed if t[2] and t[0].isalnum()] + [[c[0], c[1]]] * (2 if c[0].isalnum() else 0)
+            pool = near if (near and rng.random() < 0.8) else [[p["name"], p["version"]] for p in plain]
+            su = []
+            for _ in range(rng.choice([1, 1, 2])):
+                x = rng.choice(pool)
+                if all(x[0] != y[0] for y in su):
+                    su.append(x)
+            c[5] = sorted(su)
+        if rng.random() < 0.08:
+            c[6] = True                 # the database may not be written by the user of the command
+    return sorted(out, key=repr)
 
 
 # ---- implementation ------------------------------------------------------------------------------------
 
 def run_impl(job):
     graph, case = job
-    name, version, rec, check, force = case
+    name, version, rec, check, force, setup, ro = case
     root = common.scratch("c14")
     devnull = os.open(os.devnull, os.O_WRONLY)
     os.dup2(devnull, 1)
     os.dup2(devnull, 2)
     try:
         s = L.install(root, graph)
+        L.set_up_in_env(s, setup)
+        if ro:
+            L.readonly_database(s)
         before, dbb = L.snapshot(s), L.db_listing(s)
         args = ["remove"] + (["-R"] if rec else []) + ([] if check else ["-N"]) + (["-F"] if force else []) + [name, version]
         r = L.run_cli(args, record=())
@@ -91,7 +117,7 @@ def canon_model(a):
 # ---- oracle (ii) -----------------------------------------------------------------------------------------
 
 def oracle(R, graph, case, io_, closures):
-    name, version, rec, check, force = case
+    name, version, rec, check, force, setup, ro = case
     top = (name, version, True)
     out = io_["out"]
     before, after = io_["before"], io_["after"]
@@ -102,9 +128,28 @@ def oracle(R, graph, case, io_, closures):
     unresolved = any(not t[2] for t in listed)
     unsetup_any = any(R.has_unsetup.values())
     direct = {(t[0], t[1]) for t, _, _ in R.succ.get(top, []) if t[2]}
+    # whatever the outcome: a product is never left declared without its directory, or undeclared with it
+    for key in sorted(decl_b):
+        has_dir = ("%s/%s/%s/" % (L.FLAVOR, key[0], key[1])) in after
+        if (key in decl_a) != has_dir:
+            yield ("declaration_and_directory_go_together", None,
+                   "%s %s is %s but its directory %s" % (key[0], key[1], "declared" if key in decl_a else "undeclared",
+                                                         "exists" if has_dir else "is gone"))
+            break
     if out != "ok":
         if after != before:
             yield ("unchanged_unless_ok", None, "outcome %s but the stack changed" % out)
+        if out == "NoPermission":
+            if not ro:
+                yield ("no_error", None, "permission refused although the database is writable")
+            return
+        if out == "IsSetup":
+            cand = ({(name, version)} | reach) if rec else {(name, version)}
+            if force:
+                yield ("force_never_refuses", None, "refused a set-up product although force is on")
+            elif not any(tuple(x) in cand for x in setup) and not unsetup_any:
+                yield ("refusal_has_reason", None, "refused as set up, but no product that would be removed is set up")
+            return
         if out == "Refused":
             if not check:
                 yield ("noCheck_never_refuses", None, "refused although the in-use check is off")
@@ -124,6 +169,9 @@ def oracle(R, graph, case, io_, closures):
                         break
                 if not reason and not unsetup_any:
                     yield ("refusal_has_reason", None, "refused, but no other product depends on anything that would be removed")
+        elif out == "TableError":
+            if not (rec and any(p.get("missing") for p in graph["products"])):
+                yield ("no_error", None, "TableFileNotFound although no collected product lacks its table file")
         elif out == "NotFound":
             if not (rec and (unresolved or unsetup_any)):
                 yield ("no_error", None, "ProductNotFound for a declared target whose dependencies all resolve")
@@ -133,15 +181,18 @@ def oracle(R, graph, case, io_, closures):
             cyclic = any(any(b != a and b in rr[a] and a in rr.get(b, ()) for b in nodes) for a in nodes) or top in listed
             if check and unsetup_any:
                 yield ("terminates", "D32", "RecursionError from the in-use check (unsetupRequired inside a cycle)")
+            elif rec and unsetup_any:
+                # also when the closure is cyclic: the model (which has the D33 repair) must reproduce the outcome
+                yield ("terminates", "D32", "RecursionError: unsetupRequired line met while listing direct dependencies")
             elif rec and cyclic:
                 yield ("terminates", None, "RecursionError: recursive remove over a cyclic dependency closure (D33, repaired)")
-            elif rec and unsetup_any:
-                yield ("terminates", "D32", "RecursionError: unsetupRequired line met while listing direct dependencies")
             else:
                 yield ("no_error", None, "RecursionError")
         else:
             yield ("no_error", None, "remove raised %s" % out)
         return
+    if ro and (decl_b - decl_a):
+        yield ("readonly_database_untouched", None, "declarations removed from a database the user may not write")
     gone = decl_b - decl_a
     if decl_a - decl_b:
         yield ("exact", None, "new declarations %s" % sorted(decl_a - decl_b))
@@ -192,11 +243,14 @@ def model_request(graph, cases):
     return {"m": "c14", "graph": {"products": graph["products"]}, "default": None, "cases": cases}
 
 
-def evaluate(ctx, graphs, per_graph=20, all_cases=False):
+def evaluate(ctx, graphs, per_graph=18, all_cases=False):
     L.preimport()
     jobs = []
     for g in graphs:
-        cases = gen_cases(ctx.rng, g, 10 ** 6 if all_cases else per_graph)
+        if all_cases:
+            cases = gen_cases(ctx.rng, g, setups=g.pop("_setups", [([], False)]))
+        else:
+            cases = gen_cases(ctx.rng, g, per_graph)
         jobs.append((g, cases))
     flat = [(g, c) for g, cases in jobs for c in cases]
     impl = parallel_map(in_child_job, flat, workers=6)
@@ -226,6 +280,10 @@ def evaluate(ctx, graphs, per_graph=20, all_cases=False):
             ctx.case(key=[g["products"], case], nontrivial=nontriv,
                      sample={"input": inp, "impl": ci} if ctx.evaluations % 1009 == 0 else None)
             ctx.hist("%s%s%s:%s" % ("R" if case[2] else "-", "C" if case[3] else "-", "F" if case[4] else "-", io_["out"]))
+            if case[5]:
+                ctx.hist("setup_in_env:%s" % io_["out"])
+            if case[6]:
+                ctx.hist("readonly_db:%s" % io_["out"])
             if top not in users_of:
                 mine = {t for t in closures(top)[0] if t[2]}
                 others = [k for k in R.decl if k != (case[0], case[1])]
@@ -254,6 +312,7 @@ def corpus_items():
                 with open(os.path.join(d, f)) as fh:
                     c = json.load(fh)
                 c["graph"]["shape"] = "corpus:" + f
+                c["graph"]["_setups"] = [(su, False) for su in c.get("setups", [[]])] + [([], True)] * bool(c.get("readonly"))
                 out.append(c["graph"])
     return out
 
@@ -274,7 +333,7 @@ def run(ctx):
         if ctx.out_of_time():
             break
         evaluate(ctx, [c13.enum_graph(i, 2) for i in ids[at:at + 32]], all_cases=True)
-    n = ctx.n(60, 5000)
+    n = ctx.n(45, 5000)
     done = 0
     while done < n and not ctx.out_of_time():
         k = min(40, n - done)
@@ -283,7 +342,7 @@ def run(ctx):
     if ctx.evaluations and ctx.distinct_nontrivial < ctx.evaluations * 0.3:
         raise common.InfraError("degenerate distribution: %d non-trivial of %d" % (ctx.distinct_nontrivial, ctx.evaluations))
     h = ctx.histogram
-    if not ctx.escalated and n >= 60:
+    if not ctx.escalated and n >= 40:
         for need in ("target:has_user", "target:has_dependency", "target:shares_dependency"):
             if not h.get(need):
                 raise common.InfraError("degenerate distribution: no case with %s" % need)
